@@ -97,6 +97,8 @@ PROP = {
         "conclusion fails without it; the harness generates the combination, compares it with the model and counts it "
         "(storedcompat_excluded) instead of judging it. The tool re-keys the target's label in the same syncMeta call that relabels "
         "the cache, so it does not produce the state from consistent bookkeeping (stale/re-keyed checkpoints are C17's subject)",
+        "the output side is a recording double: output.StartPoint supplies the stored position, output.SetRunId records the id "
+        "(RedisOutput.StartPoint/SetRunId -> GetCheckpoint/UpdateCheckpoint re-keying is C17/C07's subject)",
         "single cache directory per input (the disk store can hold directories of several ids; only the one matching the source ids "
         "first is modelled); ids compare case-sensitively (Redis uses strcasecmp on hex ids)",
         "syncMeta/SendPSync/channel query API are hand-written models tied by correspondence (not regenerated); the skeleton they "
